@@ -118,6 +118,26 @@ def runSteps (disallowUnknown : Bool) : Option Nat → Option Bytes → List Mem
     | .err e => .err e
     | .panic => .panic
 
+/-! ## exactly one value -/
+
+/-- only JSON white space -/
+def allSpace (s : Bytes) : Bool := s.all GoJson.isSpace
+
+/-- the input left in the decoder after `unmarshalJSON` has read the value and, for an object, its
+closing brace; `none` if the value is not read to its end -/
+def restAfterValue (mk : Nat) (r : Size.Rule) (s : Bytes) : Option Bytes :=
+  match (GoJson.Dec.init s).token with
+  | .error _ => none
+  | .ok (.delim c, d) =>
+    if c != 123 then none
+    else match Size.objectLoop mk r.disallowUnknown (s.length + 2) 0 d none none with
+      | .ok (_, d1) =>
+        match d1.token with
+        | .ok (.delim 125, d2) => some d2.rest
+        | _ => none
+      | _ => none
+  | .ok (_, d) => some d.rest
+
 /-! ## concrete JSON text
 
 A small JSON document type and its compact rendering (single-byte separators, no white space).
